@@ -478,6 +478,78 @@ theorem C05_target_new_branch (sess : Session) (over : Bool) (f : Obj) (F Rt P D
     exact ⟨⟨hw1, by cases F; exact hF.1.2⟩, by cases F; exact hF.2⟩
   exact C05_replace_root sess f F.name _ hv (rootedWF_replaceAt (withBody F body') (P.addKid D) n0 q0 hF1r hwf) hall
 
+theorem kidsWF_append_list : ∀ (fk ds : List Tree) (taken : List String),
+    kidsWF CT DT taken fk = true → kidsWF CT DT (taken ++ names fk) ds = true → kidsWF CT DT taken (fk ++ ds) = true
+  | [], ds, taken, _, h => by simpa [names] using h
+  | x :: xs, ds, taken, h, hd => by
+    simp only [kidsWF, Bool.and_eq_true] at h
+    simp only [List.cons_append, kidsWF, Bool.and_eq_true]
+    refine ⟨h.1, kidsWF_append_list xs ds (x.name :: taken) h.2 ?_⟩
+    refine kidsWF_mono ds (taken ++ names (x :: xs)) ((x.name :: taken) ++ names xs) ?_ hd
+    intro n hn
+    simp only [names, List.map_cons, List.mem_append, List.mem_cons] at hn ⊢
+    rcases hn with (h1 | h1) | h1
+    · exact Or.inr (Or.inl h1)
+    · exact Or.inl h1
+    · exact Or.inr (Or.inr h1)
+
+/-- C05 after a FOREIGN ROOT was saved under an emdpath into an existing tree (`C09_foreign_root`; target below the root):
+    the Root is not written as a group inside another tree — its children are grafted below the target — and the file is
+    still a well-formed EMD 1.0 file -/
+theorem C05_foreign_root (sess : Session) (over : Bool) (opt : TreeOpt) (hopt : opt ≠ .no) (f : Obj) (F X P : Tree)
+    (ep : String) (n0 : String) (q0 : List String)
+    (hv : validFile DT sess f = true)
+    (hFok : F.allInfo infoOK = true) (hXok : X.allInfo infoOK = true)
+    (hF : F.rootedWF CT DT = true) (hX : X.wf CT DT = true)
+    (hXnot : (rootGroups f).contains X.name = false)
+    (hparse : parseEmdpathWrite ep = some (F.name, n0 :: q0))
+    (hf : alookup F.name f.kids = some (encode F))
+    (hP : F.at (n0 :: q0) = some P)
+    (hfresh : ∀ k ∈ X.kids, k.name ∉ akeys P.info.body ++ names P.kids) :
+    ∃ f', appendInto DT f X [] over opt (some ep) = .ok f' ∧ validFile DT sess f' = true := by
+  have hFw : F.wf CT DT = true := by
+    simp only [Tree.rootedWF, Bool.and_eq_true] at hF; exact hF.1.1
+  have hap := C09_foreign_root over opt hopt f F X P ep (n0 :: q0) hFw hX hXnot hparse hf hP hfresh
+  refine ⟨_, hap, ?_⟩
+  obtain ⟨hPw, hPd⟩ := wf_at (n0 :: q0) F P hFw hP
+  have hXk : kidsWF CT DT (akeys P.info.body ++ names P.kids) X.kids = true :=
+    kidsWF_retake' X.kids _ _ (Tree.wf_kids hX) hfresh
+  have hP'w : (Tree.mk P.info (P.kids ++ X.kids)).wf CT DT = true := by
+    cases P with
+    | mk pi pk =>
+      simp only [Tree.info_mk, Tree.kids_mk] at hXk ⊢
+      have hk := Tree.wf_kids hPw
+      simp only [Tree.info_mk, Tree.kids_mk] at hk
+      simp only [Tree.wf, Bool.and_eq_true]
+      exact ⟨Tree.wf_info hPw, kidsWF_append_list pk X.kids _ hk hXk⟩
+  have hwf := replaceAt_wf (ct := CT) (dt := DT) (n0 :: q0) F P (.mk P.info (P.kids ++ X.kids)) hFw hP hP'w
+    (by cases P; rfl) (fun h => by cases P; exact hPd h)
+  have hPok : P.allInfo infoOK = true := allInfo_at infoOK (n0 :: q0) F P hFok hP
+  have hP'ok : (Tree.mk P.info (P.kids ++ X.kids)).allInfo infoOK = true := by
+    cases P with
+    | mk pi pk =>
+      cases X with
+      | mk xi xk =>
+        simp only [Tree.allInfo, Bool.and_eq_true] at hPok hXok
+        simp only [Tree.info_mk, Tree.kids_mk, Tree.allInfo, allInfoKids_append, Bool.and_eq_true]
+        exact ⟨hPok.1, hPok.2, hXok.2⟩
+  have hall := allInfo_replaceAt infoOK (n0 :: q0) F _ hFok hP'ok
+  exact C05_replace_root sess f F.name _ hv (rootedWF_replaceAt F _ n0 q0 hF hwf) hall
+
+-- non-vacuity / model run: a foreign Root `other` with one child saved under the emdpath `r/a` of the example file: the hypotheses
+-- hold, the child lands below `a`, no group called `other` is written, and the file validates
+def exX : Tree :=
+  .mk { name := "other", cls := "Root", gtype := "root", body := [] }
+    [ .mk { name := "g", cls := "Node", gtype := "node", body := [] } [] ]
+example : exX.wf CT DT = true ∧ (rootGroups (fileOf {} "u" exF)).contains exX.name = false ∧
+    parseEmdpathWrite "r/a" = some (exF.name, ["a"]) ∧
+    (match exF.at ["a"] with
+     | some P => exX.kids.all (fun k => !(akeys P.info.body ++ names P.kids).contains k.name)
+     | none => false) = true := by decide
+example : (match appendInto DT (fileOf {} "u" exF) exX [] false .yes (some "r/a") with
+    | .ok f => validFile DT {} f && (f.at ["r", "a", "g"]).isSome && (f.at ["r", "a", "other"]).isNone
+    | .error _ => false) = true := by decide
+
 /-! ### per-class body validity: what `Array.to_h5` writes is a valid Array body -/
 
 theorem dim_prefix (n : Nat) : ((autoName "dim" n).toList.take 3 == ['d', 'i', 'm']) = true := by
